@@ -292,7 +292,7 @@ def _decomposed(g, shapes, comps):
     return out
 
 
-def _fea(rnd, is_default, glyphs, with_caret):
+def _fea(rnd, is_default, glyphs, with_caret, sparse_kern=False):
     def j(v, r=40):
         return v if is_default else v + rnd.randrange(-r, r + 1)
 
@@ -311,6 +311,12 @@ def _fea(rnd, is_default, glyphs, with_caret):
             lines.append("  pos %s %s %d;" % (a, b, nz(j(v))))
             pairs.append((a, b))
     if has("A", "B", "C", "D"):
+        if sparse_kern:
+            # kerning exceptions to the class pair below that exist in only some masters: in the others the pair is
+            # kerned by the class subtable while its first glyph is still covered by the glyph-pair subtable (A B, B A)
+            for a, b, v in (("A", "C", -70), ("B", "D", 55), ("A", "D", -33)):
+                if rnd.random() < 0.5:
+                    lines.append("  pos %s %s %d;" % (a, b, nz(v + rnd.randrange(-20, 21))))
         lines.append("  pos [A B] [C D] %d;" % nz(j(18)))
         pairs += [("A", "C"), ("B", "D"), ("A", "D"), ("B", "C")]
     if has("O", "E"):
@@ -401,7 +407,7 @@ def build_master(rnd, kind, is_default, glyphs, opts, name):
     fb.setupPost(**{f: mv(f) for f in MVAR_FIELDS["post"]})
     pairs = []
     if opts.get("layout", True) and not (sparse and (opts.get("sparse_no_layout") or len(order) < len([g for g in ORDER if opts.get("alt") or g != "A.alt"]))):
-        fea, pairs = _fea(rnd, is_default, set(order) - ({"space"}), opts.get("caret"))
+        fea, pairs = _fea(rnd, is_default, set(order) - ({"space"}), opts.get("caret"), opts.get("sparse_kern"))
         addOpenTypeFeaturesFromString(fb.font, fea)
     buf = io.BytesIO()
     fb.font.save(buf)
@@ -423,7 +429,8 @@ def make(rnd, kind="ttf", naxes=None, maps=True, rules=False, sparse=True, grid=
     opts = {"alt": rules, "layout": layout, "use_typo": rnd.random() < 0.5, "caret": rnd.random() < 0.5,
             "lsb_is_xmin": rnd.random() < 0.6, "mvar": rnd.random() < 0.85,
             "sparse_adv_sentinel": rnd.random() < 0.5, "sparse_no_layout": rnd.random() < 0.5,
-            "cff_subset_sparse": rnd.random() < 0.5, "mark_zero": rnd.random() < 0.7}
+            "cff_subset_sparse": rnd.random() < 0.5, "mark_zero": rnd.random() < 0.7,
+            "sparse_kern": rnd.random() < 0.7, "partial_locations": rnd.random() < 0.6}
     ds = DesignSpaceDocument()
     for a in axes:
         ad = AxisDescriptor()
@@ -455,7 +462,13 @@ def make(rnd, kind="ttf", naxes=None, maps=True, rules=False, sparse=True, grid=
         sd = SourceDescriptor()
         sd.name = name
         sd.familyName, sd.styleName = "Gen", name
-        sd.location = dict(design)
+        loc = dict(design)
+        if opts["partial_locations"]:
+            # since designspace format 5 a source may omit axes that sit at their default
+            for a in axes:
+                if ul[a["tag"]] == a["default"] and rnd.random() < 0.7:
+                    del loc[a["name"]]
+        sd.location = loc
         sd.font = TTFont(io.BytesIO(data), recalcTimestamp=False)
         # TrueType: a glyph absent from a sparse master does not contribute to gvar (phantom points), so its
         # advance must not contribute to HVAR either, or the built font's HVAR and gvar disagree
@@ -470,7 +483,8 @@ def make(rnd, kind="ttf", naxes=None, maps=True, rules=False, sparse=True, grid=
         ds.addSource(sd)
         masters.append({"name": name, "design": design, "user": dict(ul), "bytes": data, "order": info["order"],
                         "sparse": info["sparse"], "pairs": info["pairs"], "layout": info["layout"],
-                        "is_default": is_default, "adv": info["adv"], "adv_sentinel": sentinel})
+                        "is_default": is_default, "adv": info["adv"], "adv_sentinel": sentinel,
+                        "partial_location": len(loc) < len(design)})
     if rules:
         for k in range(rnd.randrange(1, 3)):
             a = rnd.choice(axes)
